@@ -553,6 +553,9 @@ func finish(c *core.Ctx, s *sched.S, results [][]string) {
 	}
 	c.Rec.LogHash = core.HashStr(lb.String())
 	c.Rec.Probes = core.AddCounts(c.Rec.Probes, map[string]int{"switch_inside_operation": int(s.SwitchInsideOp)})
+	if s.ForeignYields > 0 {
+		c.Rec.Probes["yields_on_goroutines_started_by_the_library"] += int(s.ForeignYields)
+	}
 	if s.BlockedPolls > 0 {
 		c.Rec.Probes["task_blocked_on_lock_handed_over"] += int(s.BlockedPolls)
 	}
